@@ -11,6 +11,7 @@ import Driver.TokOps
 import Driver.SpecOps
 import H5.Model.Walker
 import H5.Model.Sax
+import H5.Model.InjectMeta
 open H5 H5.Wire
 
 def otok : R (Option Tok) := do
@@ -87,6 +88,10 @@ def handle (ws : List String) : String :=
   | "ws" :: rest =>
     match run (list tok) rest with
     | some ts => "ok " ++ encToks (H5.Model.Whitespace.filter ts)
+    | none => "bad-request"
+  | "inject" :: rest =>
+    match run (do let e ← str; let ts ← list tok; pure (e, ts)) rest with
+    | some (e, ts) => "ok " ++ encToks (H5.Model.InjectMeta.inject e ts)
     | none => "bad-request"
   | "sax" :: rest =>
     match run (list tok) rest with
